@@ -239,6 +239,7 @@ func run(r *core.Run) {
 	timed("quasi", runQuasi)
 	timed("macro", runMacro)
 	timed("reentrancy", runReentrancy)
+	timed("stateful", runStateful)
 	timed("gensym-bfs", runGensym)
 	timed("gensym-concurrent", runGensymConcurrent)
 	r.Extra("cpu_seconds_by_part", cpu)
